@@ -340,6 +340,7 @@ class Path:
         self.state = state
         self.end = end          # 'return' | 'diverge'
         self.ret = ret
+        self.head = None
 
     def calls(self, *names):
         out = []
@@ -509,6 +510,7 @@ class SymEx:
                 if st.visits[vk] >= 1:
                     # back edge: the generic iteration ends here (its events still count)
                     self.paths.append(Path(st, 'backedge', None))
+                    self.paths[-1].head = (st.fid, bb)      # the loop this generic iteration belongs to
                     return
                 info = loops[bb]
                 for l in info['locals']:
